@@ -140,6 +140,8 @@ func c13Scenarios(quick bool) []c13Scenario {
 	add("readiness", "redis", nil, []string{"ready"}, deep, "ready")
 	add("readiness, cookie store", "cookie", nil, []string{"ready"}, 0, "ready")
 	add("readiness, store unreachable", "redis", []string{"close-store"}, []string{"ready"}, 0, "")
+	// the store goes away right after a probe that found it well (an answer remembered from then is wrong now)
+	add("readiness, store unreachable after a successful probe", "redis", []string{"ready", "close-store"}, []string{"ready"}, 0, "")
 	add("authenticated-request, store unreachable", "redis", []string{"login", "close-store"}, []string{"get:/page"}, 0, "")
 	add("sign-out, store unreachable", "redis", []string{"login", "close-store"}, []string{"signout"}, 0, "")
 	// one browser's whole life with faults anywhere: login, use, refresh, sign-out
